@@ -418,6 +418,10 @@ def step (st : State) (w : List String) : State × String :=
   | "h" :: _ => stepNsec3 st w
   | "adm" :: _ => stepAdm st w
   | "exp" :: _ => stepExp st w
+  | ["p", "match", sg, o, l, t] =>
+    match parseName sg, parseName o, l.toNat?, t.toNat? with
+    | some sg, some o, some l, some t => (st, boolStr (signatureMatches sg o l t))
+    | _, _, _, _ => (st, "bad-op")
   | "p" :: _ => (st, "unmodelled")
   | _ => (st, "bad-op")
 
